@@ -17,7 +17,12 @@ combinations*; `eval_case` runs the real implementation once per combination and
   index-rows   one row per (non-drum) input note, in input order: row, first frame, end frame, pitch
   pc-fold      the pitch-class roll is the octave fold of the full roll (binarised / normalised)
   round-trip   roll of grid-aligned non-touching notes -> note array recovers all four columns
-  inverse      every integer roll (128 or 88 rows) decodes into exactly its runs
+  inverse      every integer roll (128 or 88 rows) of non-touching runs decodes into exactly its runs
+  decode-consistent
+               every integer roll (128 or 88 rows) - also one in which a row changes its non-zero value from
+               one frame to the next (touching / colliding notes of different velocity), and every roll
+               compute_pianoroll returns with 128 / 88 rows under any option combination - decodes into
+               notes whose own roll (reference rasteriser, maximum on collision) is the given roll
 """
 import itertools
 from fractions import Fraction as F
@@ -47,6 +52,11 @@ ASSUMPTIONS = [
     "in onset-only mode the third index column may be onset+1 or the note's end frame (with or without separation)",
     "velocity 0 and empty note arrays are outside the quantifier; order and ids of the notes returned by "
     "pianoroll_to_notearray are not compared",
+    "the statement promises recovery of the notes only for non-touching notes; for every other integer roll of the "
+    "quantifier (a row changes its non-zero value between adjacent frames, collisions, onset-only / separated / binary / "
+    "margin rolls) it leaves open WHICH notes are returned, and the check accepts every answer whose notes, rasterised as "
+    "the first sentence of the statement prescribes (own velocity, maximum on collision, at least one frame), show "
+    "exactly the given roll (clause decode-consistent); how a run of equal values is cut into notes is not compared",
     "trusted: numpy, scipy.sparse (toarray, slicing)",
 ]
 CHUNK = 4
@@ -392,6 +402,53 @@ PC_KW = ("normalize", "time_unit", "time_div", "onset_only", "note_separation", 
          "remove_silence", "end_time", "binary")
 
 
+def reraster(back, unit, div, R, n):
+    """The roll (R x n, int) the decoded notes `back` show according to the first sentence of the statement:
+    first frame round(div * onset), max(1, round(div * duration)) frames, own velocity, maximum on collision.
+    Returns (dense, None) or (None, reason) when a note does not fit the roll at all."""
+    base = 0 if R == 128 else 21
+    dense = np.zeros((R, n), dtype=np.int64)
+    try:
+        rows = [(int(x["pitch"]), float(x["onset_" + unit]), float(x["duration_" + unit]), int(x["velocity"])) for x in back]
+    except Exception as e:  # noqa
+        return None, exc_text(e)
+    for p, on, du, v in rows:
+        a = int(round(div * on))
+        d = max(1, int(round(div * du)))
+        if abs(div * on - a) > 1e-4 or abs(div * du - round(div * du)) > 1e-4:
+            return None, "note (%d, %r, %r, %d) is not on the frame grid" % (p, on, du, v)
+        r = p - base
+        if not (0 <= r < R and 0 <= a and a + d <= n):
+            return None, "note (%d, %r, %r, %d) lies outside the %dx%d roll" % (p, on, du, v, R, n)
+        if v == 0:
+            return None, "note (%d, %r, %r, %d) has velocity 0" % (p, on, du, v)
+        seg = dense[r, a:a + d]
+        np.maximum(seg, v, out=seg)
+    return dense, None
+
+
+def decode_consistent(res, roll, dense, div, unit, detail, stats):
+    """clause decode-consistent: pianoroll_to_notearray(roll) returns notes that show exactly `dense`."""
+    from partitura.utils.music import pianoroll_to_notearray
+
+    res.transitions += 1
+    stats["decodes"] = stats.get("decodes", 0) + 1
+    ok, back = _call(res, "decode-consistent", detail, pianoroll_to_notearray, roll, div, unit)
+    if not ok:
+        return None
+    again, why = reraster(back, unit, div, dense.shape[0], dense.shape[1])
+    if again is None:
+        res.fail("decode-consistent", expected=nz(dense), observed=why, where="pianoroll_to_notearray", detail=detail)
+    elif not np.array_equal(again, dense):
+        try:
+            notes = sorted((int(x["pitch"]), float(x["onset_" + unit]), float(x["duration_" + unit]), int(x["velocity"])) for x in back)
+        except Exception as e:  # noqa
+            notes = exc_text(e)
+        res.fail("decode-consistent", expected="notes showing the cells %s" % nz(dense),
+                 observed="notes %s showing the cells %s" % (notes, nz(again)), where="pianoroll_to_notearray", detail=detail)
+    return back
+
+
 def check_roll(res, case, o, stats, cache):
     from partitura.utils.music import compute_pianoroll, pianoroll_to_notearray
 
@@ -438,13 +495,15 @@ def check_roll(res, case, o, stats, cache):
             res.fail("index-rows", expected=idx_text(ref["idx"]), observed=idx.tolist(), where="compute_pianoroll index rows", detail=detail)
             return
     # round trip, where the statement promises it
-    if (not o["onset_only"] and not o["note_separation"] and not o["binary"] and o["time_margin"] == 0
-            and o["pitch_margin"] == -1 and ref["start"] == 0 and case.get("grid", "aligned") == "aligned"):
+    plain = not o["onset_only"] and not o["note_separation"] and not o["binary"] and o["time_margin"] == 0
+    exact = False
+    if (plain and o["pitch_margin"] == -1 and ref["start"] == 0 and case.get("grid", "aligned") == "aligned"):
         spans = sorted(zip(ref["rows"], ref["spans"]))
         apart = all(not (spans[i][0] == spans[i + 1][0] and spans[i + 1][1][0] <= spans[i][1][1]) for i in range(len(spans) - 1))
         positive = all(n[2] > 0 for n in notes)
         inside = all(0 <= r < ref["M"] for r in ref["rows"])
         if apart and positive and inside:
+            exact = True
             stats["roundtrips"] += 1
             res.transitions += 1
             ok, back = _call(res, "round-trip", detail, pianoroll_to_notearray, pr, div, unit)
@@ -457,6 +516,11 @@ def check_roll(res, case, o, stats, cache):
                     have = exc_text(e)
                 if have != want:
                     res.fail("round-trip", expected=want, observed=have, where="pianoroll_to_notearray", detail=detail)
+    # every other roll of 128 / 88 rows (touching or colliding notes, zero durations, notes outside the piano, pickup,
+    # onset-only / separated / binary / margin rolls): the decoded notes must show the roll again. The matrix is decoded
+    # as returned (sparse) for the plain option combinations, as a dense array otherwise.
+    if not exact and o["pitch_margin"] == -1:
+        decode_consistent(res, pr if plain else got.copy(), exp, div, unit, detail, stats)
 
 
 def check_pc(res, case, o, stats, cache):
@@ -523,10 +587,29 @@ def check_inverse(res, case, stats):
     from partitura.utils.music import pianoroll_to_notearray
     from scipy.sparse import csc_matrix, csr_matrix
 
-    R, n, runs = case["rows"], case["n"], case["runs"]
+    R, n = case["rows"], case["n"]
     dense = np.zeros((R, n), dtype=int)
-    for r, s, l, v in runs:
-        dense[r, s:s + l] = v
+    touching = False
+    if "cells" in case:  # every cell of the chosen rows given: runs = maximal stretches of one non-zero value
+        runs = []
+        for r, vals in case["cells"]:
+            dense[r, :] = vals
+            j = 0
+            while j < n:
+                if vals[j] == 0:
+                    j += 1
+                    continue
+                k = j
+                while k < n and vals[k] == vals[j]:
+                    k += 1
+                if k < n and vals[k] != 0:
+                    touching = True
+                runs.append([r, j, k - j, vals[j]])
+                j = k
+    else:
+        runs = case["runs"]
+        for r, s, l, v in runs:
+            dense[r, s:s + l] = v
     base = 0 if R == 128 else 21
     for k, (div, unit) in enumerate(case["divs"]):
         for cont in (case["containers"] if k == 0 else case["containers"][:1]):
@@ -534,6 +617,14 @@ def check_inverse(res, case, stats):
             detail = "roll %dx%d runs=%s time_div=%r time_unit=%s container=%s" % (R, n, runs, div, unit, cont)
             res.states += 1
             res.traces += 1
+            if touching:
+                # a row changes its non-zero value between adjacent frames: not the roll of non-touching notes, the
+                # statement does not say which notes come back - they must show the roll again
+                stats["touching"] = 1
+                decode_consistent(res, roll, dense, div, unit, detail, stats)
+                if cont == "ndarray" and not np.array_equal(roll, dense):
+                    res.fail("inverse", expected="the roll is left as given", observed=nz(roll), where="pianoroll_to_notearray argument", detail=detail)
+                continue
             res.transitions += 1
             ok, back = _call(res, "inverse", detail, pianoroll_to_notearray, roll, div, unit)
             if not ok:
@@ -557,7 +648,7 @@ def check_inverse(res, case, stats):
 
 def eval_case(case):
     res = CaseResult(states=0, transitions=0, traces=0)
-    stats = dict(skipped=0, nnz=0, nontrivial=0, roundtrips=0)
+    stats = dict(skipped=0, nnz=0, nontrivial=0, roundtrips=0, decodes=0, touching=0)
     kind = case["kind"]
     if kind == "inv":
         check_inverse(res, case, stats)
@@ -567,8 +658,10 @@ def eval_case(case):
         for o in option_set(case):
             fn(res, case, o, stats, cache)
     res.nontrivial = stats["nontrivial"] > 0
-    res.outcome = "%s evals=%d nnz=%d rt=%d skipped=%d" % (kind, res.states, stats["nnz"], stats["roundtrips"], stats["skipped"])
+    res.outcome = "%s evals=%d nnz=%d rt=%d dec=%d skipped=%d%s" % (kind, res.states, stats["nnz"], stats["roundtrips"],
+                                                                 stats["decodes"], stats["skipped"], " touching" if stats["touching"] else "")
     res.extra = {"option_combinations_skipped_as_ambiguous": stats["skipped"], "round_trips": stats["roundtrips"],
+                 "decodes_checked_for_consistency": stats["decodes"],
                  "nontrivial_evaluations": stats["nontrivial"]}
     return res
 
@@ -712,6 +805,16 @@ def gen_inverse(R, n_max, rows, values, max_runs, divs, containers):
                     yield dict(kind="inv", rows=R, n=n, runs=[list(x) for x in combo], divs=divs, containers=containers)
 
 
+def gen_inverse_cells(R, n_max, rows, values, divs, containers):
+    """every roll of R rows and n <= n_max columns in which each cell of the given rows holds 0 or one of the values
+    (all other rows empty): equal-valued, different-valued touching, separated runs in every arrangement."""
+    alpha = (0,) + tuple(values)
+    for n in range(0, n_max + 1):
+        for cells in itertools.product(alpha, repeat=len(rows) * n):
+            yield dict(kind="inv", rows=R, n=n, cells=[[r, list(cells[i * n:(i + 1) * n])] for i, r in enumerate(rows)],
+                       divs=divs, containers=containers)
+
+
 def _block(gen, B, b):
     def it():
         for c in gen():
@@ -806,6 +909,18 @@ def spaces(tier, seed):
                                                 gen_inverse(88, 4, (0, 87), (1, 64), 3, INV_DIVS, INV_CONT)), True,
                         "ALL integer rolls 128 x n (rows 0,60,127; values 1,127) and 88 x n (rows 0,87; values 1,64), n <= 4, at most 3 "
                         "non-touching runs; " + INV_TXT))
+        BI = 8
+        sp.append(Space("inverse-rolls-all-cells",
+                        lambda: itertools.chain(
+                            gen_inverse_cells(128, 4, (60, 127), (1, 127), INV_DIVS, INV_CONT),
+                            gen_inverse_cells(88, 4, (0, 87), (40, 90), INV_DIVS, INV_CONT),
+                            _block(lambda: gen_inverse_cells(128, 3, (0, 60, 61), (64, 127), INV_DIVS, INV_CONT), BI, seed % BI)()), True,
+                        "ALL integer rolls 128 x n with every cell of rows 60,127 in {0,1,127} and 88 x n with every cell of rows 0,87 "
+                        "in {0,40,90}, n <= 4 (every arrangement of equal-valued, different-valued touching and separated runs, incl. a "
+                        "row changing its value while the other row is held / silent / changes too), plus block %d of %d (sha1 of "
+                        "the case) of ALL 128 x n rolls with every cell of rows 0,60,61 in {0,64,127}, n <= 3; rolls of non-touching "
+                        "runs must decode into exactly their runs, rolls with a value change between adjacent frames into notes "
+                        "that show the roll again; " % (seed % BI, BI) + INV_TXT))
     else:
         sp.append(Space("pitch-class-two-row",
                         lambda: gen_pc_pairs((0, 59, 60, 72, 127), (0, 1, 2), (0, 1, 2), [(None, None), (64, 127), (127, 64), (1, 1)]), True,
@@ -816,6 +931,16 @@ def spaces(tier, seed):
                                                 gen_inverse(88, 5, (0, 39, 87), (1, 64), 3, INV_DIVS, INV_CONT)), True,
                         "ALL integer rolls 128 x n (rows 0,60,127; values 1,127) and 88 x n (rows 0,39,87; values 1,64), n <= 5, at most 3 "
                         "non-touching runs; " + INV_TXT))
+        sp.append(Space("inverse-rolls-all-cells",
+                        lambda: itertools.chain(
+                            gen_inverse_cells(128, 5, (60, 127), (1, 127), INV_DIVS, INV_CONT),
+                            gen_inverse_cells(88, 5, (0, 87), (40, 90), INV_DIVS, INV_CONT),
+                            gen_inverse_cells(128, 3, (0, 60, 61), (64, 127), INV_DIVS, INV_CONT),
+                            gen_inverse_cells(88, 3, (0, 39, 87), (1, 64), INV_DIVS, INV_CONT)), True,
+                        "ALL integer rolls 128 x n with every cell of rows 60,127 in {0,1,127} and 88 x n with every cell of rows 0,87 "
+                        "in {0,40,90}, n <= 5, and ALL 128 x n rolls with every cell of rows 0,60,61 in {0,64,127} and 88 x n rolls "
+                        "with every cell of rows 0,39,87 in {0,1,64}, n <= 3; rolls of non-touching runs must decode into exactly "
+                        "their runs, rolls with a value change between adjacent frames into notes that show the roll again; " + INV_TXT))
     return sp
 
 
